@@ -13,7 +13,7 @@ RULE = ("The host machine (call -> return(value | error); panic and process deat
         "Return. distinct_nontrivial = distinct source texts executed.")
 
 # (no astronomically large integer among the operand kinds: sizes of that magnitude are outside the guarantee)
-VARS = ["vi", "vz", "vneg", "vf", "vs", "ve", "vb", "vn", "vl", "vel", "vll", "vm", "vc", "vg", "vfn", "vfv", "vmo", "vp", "vnp", "vst", "vtl", "vtm", "vcc", "vsi", "vsf", "vtmi", "vtmf", "vtls", "vnilm", "vnill", "vps", "vnilp", "vtlp", "vnl", "vtfp", "vcp", "vu", "vby", "vf32", "vi8"]
+VARS = ["vi", "vz", "vneg", "vf", "vs", "ve", "vb", "vn", "vl", "vel", "vll", "vm", "vc", "vg", "vfn", "vfv", "vmo", "vp", "vnp", "vst", "vtl", "vtm", "vcc", "vsi", "vsf", "vtmi", "vtmf", "vtls", "vnilm", "vnill", "vps", "vnilp", "vtlp", "vnl", "vtfp", "vcp", "vu", "vby", "vf32", "vi8", "vmf", "vnf", "vmfv"]
 
 T2 = []
 def t2(i, pre, mid, post): T2.append({"id": i, "pre": pre, "mid": mid, "post": post})
@@ -35,6 +35,8 @@ t2("forin-over-del", 'for k, v in ', ' {\n delete(', ', k)\n x = [k, v]\n}')
 t2("member-assign-A", "", ".A = ", ""); t2("elem-member-assign", "[", "][0].A = ", ""); t2("map-member-assign", "{\"k\": ", "}.k.A = ", ""); t2("call-member-assign", "id(", ").A = ", "")
 t2("list-var-member-assign", "q = [", "]\nq[0].A = ", "\nq"); t2("map-var-member-assign", "q = {\"k\": ", "}\nq.k.A = ", "\nq"); t2("elem-member-assign-B", "[", "][0].B = ", ""); t2("elem-elem-assign", "[", "][0][0] = ", "")
 t2("elem0-assign", "", "[0] = ", ""); t2("forin-single", "for v in ", " {\n x = [v, ", "]\n break\n}")
+# defers / goroutines registered at the top level of the script (they run from RunContext, below no call expression)
+t2("defer-top", "defer ", "(", ")\n1"); t2("defer-top-spread", "defer ", "(", "...)\n1"); t2("defer-top-throw", "defer ", "(", ")\nthrow \"t\"")
 t2("make-type", "make(type X, ", ")\nmake(X)\n", ""); t2("spread-fv", "vfv(", ", ", "...)"); t2("fn-arg-go", "vg(", ") + vg(", ")"); t2("addr-deref", "*(&", ") + ", "")
 
 DEGENERATE = ["ga3([1, 2, 3, 4])", "ga3([1])", "ga3([])", "ga3(vl)", "ga3(vll)", "ga3([1, 2, 3, 4, 5, 6, 7, 8, 9])", "vtfp[0] = vtlp[0]", "vtfp[0] = vnilp", "gpf(vnilp)", "gpf(vtlp[0])", "vtfp += vtlp",
@@ -84,6 +86,8 @@ _NAN = "nan = 0.0 / 0.0\n"
 DEGENERATE += [_NAN + t for t in ("a = make([]map[float64]int64, 1)\na[0][nan] += 1", "a = make([]map[float64]int64, 1)\na[0][nan] = 1\na[0][nan]", "m = {}\nm[nan] = 1\n[m[nan], len(m)]", "m = make(map[float64]int64)\nm[nan] += 1\nm",
                                  "m = {}\nm[nan] = 1\ndelete(m, nan)\nlen(m)", "m = {}\nm[nan] = 1\nfor k, v in m {\n x = [k, v]\n}", "m = {}\nm[nan] = 1\nv, ok = m[nan]\n[v, ok]", "m = {nan: 1, nan: 2}\nlen(m)", "nan in [nan]",
                                  "switch nan {\ncase nan:\n 1\n}", "m = map[float64]string{nan: \"a\"}\nm[nan]", "m = {}\nm[nan] = {}\nm[nan].k = 1", "m = {}\nm[[nan]] = 1")]
+DEGENERATE += ["defer vmf()", "defer vnf()", "defer vmfv()", "defer vmf(1)\n1", "defer vnf(1)\n1", "defer vmfv(1, 2)\n1", "vmf()", "vnf()", "vmf(1)", "vnf(1)", "go vmf(1)", "go vnf(1)", "func() { defer vmf(1) }()", "func() { defer vnf(1) }()",
+               "defer vmf(1)\nthrow \"x\"", "f = make(VF)\ndefer f(2)\nf = nil", "defer make(VF)(1)", "defer make([]VF, 1)[0](1)", "try {\n defer vmf(1)\n} catch e {\n 1\n}", "defer vfn()\n1", "defer vfn(1, 2)\n1", "defer vfn(\"s\")\n1"]
 DEGENERATE += ["ga3(make([]int64, 1))", "ga3(make([]int64, 3))", "ga3(make([]int64, 9))", "ga3(vtl)", "ga3(make([]float64, 2))", "ga3(make([]string, 1))", "ga3(vtl[0:1])", "ga3(vnill)", "x = make([]int64, 1)\nga3(x)", "go ga3(make([]int64, 1))",
                "defer ga3(make([]int64, 1))\n1", "func() { defer ga3(make([]int64, 1)) }()", "try { ga3(make([]int64, 1)) } catch e { 1 }", "ga3(make([]int64, 1)...)"]
 
